@@ -15,7 +15,7 @@ Node forms (tuples):
 from .facts import Place, Operand, norm_path
 from . import cfg
 
-MAXD = 14
+MAXD = 48
 
 CHECKED = {'AddWithOverflow': 'Add', 'SubWithOverflow': 'Sub', 'MulWithOverflow': 'Mul',
            'AddUnchecked': 'Add', 'SubUnchecked': 'Sub', 'MulUnchecked': 'Mul'}
@@ -71,11 +71,13 @@ class Symbolizer:
         self.body = body
         self.is_closure = body.kind == 'Closure'
         self.cache = {}
+        self.cuts = 0
 
     # ------------------------------------------------------------------
     def local(self, l, depth=0, stack=()):
         body = self.body
         if l in stack or depth > MAXD:
+            self.cuts += 1
             return ('phi', l)
         if 1 <= l <= body.arg_count:
             name = body.var_name(l) or ''
@@ -89,11 +91,14 @@ class Symbolizer:
             if key in self.cache:
                 return self.cache[key]
             d = whole[0]
+            cuts0 = self.cuts
             if hasattr(d, 'rv'):
                 r = self.rvalue(d.rv, depth + 1, stack + (l,), d)
             else:
                 r = self.call(d, depth + 1, stack + (l,))
-            self.cache[key] = r
+            if self.cuts == cuts0:
+                # only context-independent expansions are cached
+                self.cache[key] = r
             return r
         if name:
             return ('var', name, l)
@@ -134,6 +139,12 @@ class Symbolizer:
                 return ('fn', norm_path(c.get('res', c['fn'])))
             if 'static' in c:
                 return ('static', c['static'])
+            if c.get('promoted') is not None and depth < MAXD:
+                pb = self.body.facts.by_path.get('%s::promoted[%d]' % (c['uneval'], c['promoted']))
+                if pb and len(pb) == 1:
+                    rv = ret_values(pb[0])
+                    if len(rv) == 1 and not contains(rv[0][0], lambda x: isinstance(x, tuple) and x and x[0] in ('phi', 'var', 'arg')):
+                        return rv[0][0]
             iv = int(c['int']) if 'int' in c else None
             return ('const', c['disp'], iv)
         if op.place is not None:
@@ -158,7 +169,7 @@ class Symbolizer:
         if k == 'unop':
             return ('un', rv.op, self.operand(rv.ops[0], depth, stack))
         if k == 'discr':
-            return ('discr', self.place(rv.place, depth, stack))
+            return ('discr', self.place(rv.place, depth, stack), rv.raw.get('of', ''))
         if k == 'agg':
             a = rv.agg
             ops = tuple(self.operand(o, depth, stack) for o in rv.ops)
@@ -261,7 +272,7 @@ def simplify(t):
     if k == 'agg':
         return ('agg', t[1], t[2], tuple(simplify(a) for a in t[3]))
     if k == 'discr':
-        return ('discr', simplify(t[1]))
+        return ('discr', simplify(t[1])) + t[2:]
     if k == 'unwrap':
         return ('unwrap', simplify(t[1]))
     return t
@@ -308,7 +319,7 @@ def deep_peel(t, **kw):
     if k == 'agg':
         return ('agg', t[1], t[2], tuple(deep_peel(a, **kw) for a in t[3]))
     if k == 'discr':
-        return ('discr', deep_peel(t[1], **kw))
+        return ('discr', deep_peel(t[1], **kw)) + t[2:]
     if k == 'unwrap':
         return ('unwrap', deep_peel(t[1], **kw))
     if k == 'cast':
@@ -606,3 +617,47 @@ def core(t):
     """value core: casts, integer conversions (from/try_from/into), ok()/unwrap/`?` payloads, clones and
     derefs stripped everywhere in the tree -- two trees with equal cores denote the same number"""
     return nosite(deep_peel(t, casts=True, identity=True, unwrap=True))
+
+
+STD_VARIANTS = {
+    'std::option::Option': ['None', 'Some'],
+    'std::result::Result': ['Ok', 'Err'],
+    'std::ops::ControlFlow': ['Continue', 'Break'],
+    'core::ops::ControlFlow': ['Continue', 'Break'],
+}
+
+
+def variant_names(facts, ty):
+    """variant name list of an enum type string (local ADT table or the std enums the rules need)"""
+    base = norm_path(ty.lstrip('&').replace('mut ', '').strip())
+    if base in facts.adts:
+        return [v['name'] for v in facts.adts[base]['variants']]
+    for k, v in STD_VARIANTS.items():
+        if base.startswith(k):
+            return v
+    return None
+
+
+def guard_variants(body, g):
+    """for a guard on discriminant(x): (tree of x, set of variant names the edge selects) or None"""
+    t = g.t
+    if t[0] != 'discr' or len(t) < 3:
+        return None
+    names = variant_names(body.facts, t[2])
+    if names is None:
+        return None
+    if g.values is not None:
+        sel = {names[v] for v in g.values if v < len(names)}
+    else:
+        sel = {n for i, n in enumerate(names) if i not in g.excluded}
+    return t[1], sel
+
+
+def variant_facts_at(body, b):
+    """[(tree, {variant names})] for discriminant guards dominating block b"""
+    out = []
+    for g in guards_at(body, b):
+        r = guard_variants(body, g)
+        if r is not None:
+            out.append(r)
+    return out
